@@ -87,7 +87,11 @@ static bool build(const Case& cs, Built& b, uint64_t init_base) {
   Section* text2 = nullptr;
   if (cs.code_sec) {
     if (b.code.new_section(Out(text2), ".text2", SIZE_MAX, SectionFlags::kExecutable, 16, 0) != Error::kOk) FAIL("new_section", "new_section failed");
+    // code_sec 2: the layout is fixed (flatten) BEFORE the items are assembled into the second section, so that an
+    // assembler that knows the base address computes displacements from the section's final offset right away
+    // (the section already holds bytes at that moment: an empty section would be re-aligned by the final flatten)
     b.a->section(text2); b.a->embed(nops, cs.arch == AA64 ? 4 : 1);
+    if (cs.code_sec == 2 && b.code.flatten() != Error::kOk) FAIL("flatten", "early flatten failed");
   }
   Section* isec = text2 ? text2 : b.code.text_section();
   for (auto& it : cs.items) {
@@ -392,15 +396,15 @@ int main(int argc, char** argv) {
     std::vector<Item> al = item_alphabet(arch);
     for (uint64_t base : kBases) {
       if (arch == AX86 && base > 0xFFFFFFFFull) continue;
-      for (int known = 0; known < 2; known++) for (int extra = 0; extra < 2; extra++) for (int csec = 0; csec < 2; csec++) {
+      for (int known = 0; known < 2; known++) for (int extra = 0; extra < 2; extra++) for (int csec = 0; csec < 3; csec++) {
         // all single items; pairs: quick = first item from a reduced set, thorough = all pairs
         for (size_t i = 0; i < al.size(); i++) {
-          for (int lm = 0; lm < 4; lm++) if (c.mine(idx++)) { Case cs{arch, base, (bool)known, {al[i]}, (bool)extra}; cs.label_mode = lm; cs.code_sec = csec; if (!run_case(cs)) report(cs); else c.sample(cs.str(), 8); }
+          for (int lm = 0; lm < 4; lm++) if (!(csec == 2 && !(lm & 1))) if (c.mine(idx++)) { Case cs{arch, base, (bool)known, {al[i]}, (bool)extra}; cs.label_mode = lm; cs.code_sec = csec; if (!run_case(cs)) report(cs); else c.sample(cs.str(), 8); }
           if (max_items < 2) continue;
           for (size_t j = 0; j < al.size(); j++) {
             if (c.mine(idx++)) {
               if (c.tick(256)) goto done;
-              Case cs{arch, base, (bool)known, {al[i], al[j]}, (bool)extra}; cs.label_mode = int((i + 3 * j) & 3); cs.code_sec = csec;
+              Case cs{arch, base, (bool)known, {al[i], al[j]}, (bool)extra}; cs.label_mode = int((i + 3 * j) & 3); cs.code_sec = csec; if (csec == 2) cs.label_mode |= 1;   // (the label is bound before the layout is fixed)
               if (!run_case(cs)) report(cs);
             }
             if (!c.thorough()) continue;
@@ -408,7 +412,7 @@ int main(int argc, char** argv) {
             for (size_t k = (i + j) % 5; k < al.size(); k += 5) {
               if (!c.mine(idx++)) continue;
               if (c.tick(256)) goto done;
-              Case cs{arch, base, (bool)known, {al[i], al[j], al[k]}, (bool)extra}; cs.code_sec = csec;
+              Case cs{arch, base, (bool)known, {al[i], al[j], al[k]}, (bool)extra}; cs.code_sec = csec; if (csec == 2) cs.label_mode = 1;
               if (!run_case(cs)) report(cs);
             }
           }
@@ -419,7 +423,7 @@ int main(int argc, char** argv) {
 done:
   c.n("distinct_nontrivial") = c.n("sites_checked");
   c.n("states") = c.n("evaluations"); c.n("transitions") = c.n("evaluations"); c.n("traces") = c.n("evaluations");
-  c.strs["bound"] = "programs of 1 and 2 items (all pairs)" + std::string(c.thorough() ? " and 3 items (third item every 5th symbol)" : "") + " x 8 bases x {known base, relocate} x {addrtab last, user section after addrtab} x {items in .text, items in a second code section} x 3 archs";
+  c.strs["bound"] = "programs of 1 and 2 items (all pairs)" + std::string(c.thorough() ? " and 3 items (third item every 5th symbol)" : "") + " x 8 bases x {known base, relocate} x {addrtab last, user section after addrtab} x {items in .text, items in a second code section, the same with the layout fixed before assembling into it} x 3 archs";
   c.strs["rule"] = "items = jmp/call/jnz to absolute targets, mov/cmp8/cmp32 with absolute memory operands under default/abs/rel addressing, embed_label 4/8, label memory operands, "
                    "a64 b/bl/adr to absolute targets; targets near, just inside/outside +-2 GiB (+-128 MiB, +-1 MiB for a64), fixed low/high addresses; each site of the relocated "
                    "image is decoded and evaluated like the CPU would, address-table slots are read from the copied image; an error from emit or relocate counts as 'reported'";
